@@ -447,3 +447,260 @@ def impossible_sign_test_rule(ctx, rid: str, floor: int = 5):
                        '(e.g. inverting for a negative exponent) can never run', m.rel, (dead[0].lineno if dead else fn.lineno))
     if n_sites == 0:
         raise AnalysisError('no `x = abs(...)` binding found in the repository: the rule no longer has anything to look at')
+
+
+# ---------------------------------------------------------------------------------------------------------------------
+# Seed restart: a RANDOM_STATE_OR_SEED_LIKE parameter may be an int.  parse_random_state(int) builds a *new* generator, so
+# handing the raw parameter to something inside a loop restarts the same stream on every iteration: the draws of the
+# iterations are identical instead of independent.
+SEED_RESTART_EXEMPT = {
+    # (module, function): reason
+}
+
+
+def seed_restart_rule(ctx, rid: str, prefixes, floor: int = 5, only_files=None):
+    repo = ctx.repo
+    ctx.rule(rid, 'one generator per call: in a function with a RANDOM_STATE_OR_SEED_LIKE parameter, the raw parameter is not passed to any call (parse_random_state included) inside a '
+             'loop or comprehension - an integer seed would restart the same random stream for every iteration (every measured axis, every factor of a product state, every '
+             'measurement operation), making draws that must be independent identical; parse it once before the loop and pass the generator', floor=floor, style='TNT')
+    n = 0
+    for m in sorted(repo.modules.values(), key=lambda x: x.rel):
+        if not m.rel.startswith(tuple(prefixes)) or m.rel.endswith('_test.py') or '/testing/' in m.rel or '/contrib/' in m.rel:
+            continue
+        if only_files is not None and not any(m.rel.endswith(f) for f in only_files):
+            continue
+        for fn in [f for f in ast.walk(m.tree) if isinstance(f, (ast.FunctionDef, ast.AsyncFunctionDef))]:
+            seeds = {a.arg for a in fn.args.args + fn.args.kwonlyargs if a.annotation is not None and 'RANDOM_STATE_OR_SEED_LIKE' in ast.unparse(a.annotation)}
+            if not seeds:
+                continue
+            rebound = {t.id for s in ast.walk(fn) if isinstance(s, ast.Assign) for t in s.targets if isinstance(t, ast.Name) and t.id in seeds}
+            loops = [l for l in ast.walk(fn) if isinstance(l, (ast.For, ast.AsyncFor, ast.While, ast.ListComp, ast.GeneratorExp, ast.SetComp, ast.DictComp))]
+            if not loops:
+                continue
+            n += 1
+            bad = []
+            for loop in loops:
+                if isinstance(loop, (ast.For, ast.AsyncFor, ast.While)):
+                    body = list(loop.body)
+                elif isinstance(loop, ast.DictComp):
+                    body = [loop.key, loop.value] + [i for g in loop.generators for i in g.ifs]
+                else:
+                    body = [loop.elt] + [i for g in loop.generators for i in g.ifs]
+                for st in body:
+                    for c in ast.walk(st):
+                        if isinstance(c, ast.Call):
+                            for a in list(c.args) + [k.value for k in c.keywords]:
+                                if isinstance(a, ast.Name) and a.id in seeds - rebound:
+                                    bad.append(c)
+            key = f'{m.name}.{fn.name}'
+            if (m.name, fn.name) in SEED_RESTART_EXEMPT:
+                ctx.ob(rid, key, True, 'tabled: ' + SEED_RESTART_EXEMPT[(m.name, fn.name)], m.rel, fn.lineno)
+                continue
+            ok = not bad
+            ctx.ob(rid, key, ok, '' if ok else f'`{ast.unparse(bad[0])[:90]}` sits inside a loop and receives the raw seed parameter: with an integer seed every iteration restarts the '
+                   'same stream, so e.g. independent qubits are measured with the same random number and come out perfectly correlated', m.rel, (bad[0].lineno if bad else fn.lineno))
+    if n == 0:
+        raise AnalysisError(f'{rid}: no function with a RANDOM_STATE_OR_SEED_LIKE parameter and a loop in scope')
+
+
+# ---------------------------------------------------------------------------------------------------------------------
+# Module-level containers are shared by every call.  A function that writes into one (directly, or through a local that is
+# just another name for it) makes its result depend on the calls that came before it.
+MODULE_STATE_EXEMPT = {
+    ('cirq._compat', '_warned'): 'remembers which deprecation warnings were already shown; never feeds a result',
+    ('cirq._doc', 'RECORDED_CONST_DOCS'): 'documentation registry filled at import time',
+    ('cirq.interop.quirk.cells.arithmetic_cells', 'ARITHMETIC_OP_TABLE'): 'registry filled by the @_arithmetic_gate decorators at import time',
+    ('cirq.protocols.json_serialization', 'DEFAULT_RESOLVERS'): 'resolver registry, extended by _register_resolver at import time',
+}
+_MUTATORS = {'append', 'extend', 'insert', 'add', 'update', 'setdefault', 'pop', 'popitem', 'clear', 'remove', 'discard', 'sort', 'reverse'}
+
+
+def module_state_rule(ctx, rid: str, prefixes, floor: int = 3):
+    repo = ctx.repo
+    ctx.rule(rid, 'no state carried between calls: a module-level list/dict/set (literal, comprehension or list()/dict()/set()/defaultdict() call) is never mutated from inside a function, '
+             'neither by name nor through a local bound to it without a copy (`groups = _ROOT_GROUPS; groups[k] = v`); tabled exceptions are import-time registries', floor=floor, style='EFF')
+    n = 0
+    for m in sorted(repo.modules.values(), key=lambda x: x.rel):
+        if not m.rel.startswith(tuple(prefixes)) or m.rel.endswith('_test.py') or '/testing/' in m.rel or '_pb2' in m.rel or '/json_test_data/' in m.rel:
+            continue
+        consts = {}
+        for st in m.tree.body:
+            tg = v = None
+            if isinstance(st, ast.Assign) and len(st.targets) == 1 and isinstance(st.targets[0], ast.Name):
+                tg, v = st.targets[0].id, st.value
+            elif isinstance(st, ast.AnnAssign) and isinstance(st.target, ast.Name) and st.value is not None:
+                tg, v = st.target.id, st.value
+            if tg and (isinstance(v, (ast.Dict, ast.List, ast.Set, ast.DictComp, ast.ListComp, ast.SetComp))
+                       or (isinstance(v, ast.Call) and (call_name(v) or '').split('.')[-1] in ('dict', 'list', 'set', 'defaultdict', 'OrderedDict', 'Counter'))):
+                consts[tg] = st.lineno
+        if not consts:
+            continue
+        writes = {c: [] for c in consts}
+        for fn in [f for f in ast.walk(m.tree) if isinstance(f, (ast.FunctionDef, ast.AsyncFunctionDef))]:
+            alias = {}
+            for s in ast.walk(fn):
+                if isinstance(s, ast.Assign) and isinstance(s.value, ast.Name) and s.value.id in consts:
+                    for t in s.targets:
+                        if isinstance(t, ast.Name):
+                            alias[t.id] = s.value.id
+                if isinstance(s, ast.NamedExpr) and isinstance(s.value, ast.Name) and s.value.id in consts:
+                    alias[s.target.id] = s.value.id
+            params = {a.arg for a in fn.args.args + fn.args.kwonlyargs + fn.args.posonlyargs} | ({fn.args.vararg.arg} if fn.args.vararg else set()) | ({fn.args.kwarg.arg} if fn.args.kwarg else set())
+            declared_global = {g for s in ast.walk(fn) if isinstance(s, ast.Global) for g in s.names}
+            local_defs = {t.id for s in ast.walk(fn) if isinstance(s, (ast.Assign, ast.AnnAssign, ast.AugAssign, ast.For, ast.comprehension, ast.With))
+                          for t0 in ([*s.targets] if isinstance(s, ast.Assign) else [getattr(s, 'target', None)] if not isinstance(s, ast.With) else [i.optional_vars for i in s.items])
+                          if t0 is not None for t in ast.walk(t0) if isinstance(t, ast.Name)} - declared_global
+            shadow = (params | local_defs) - set(alias)
+
+            def root(e):
+                while isinstance(e, ast.Subscript):
+                    e = e.value
+                return e.id if isinstance(e, ast.Name) else None
+            for s in ast.walk(fn):
+                nm = None
+                if isinstance(s, ast.Call) and isinstance(s.func, ast.Attribute) and s.func.attr in _MUTATORS:
+                    nm = root(s.func.value)
+                elif isinstance(s, (ast.Assign, ast.AugAssign)):
+                    for t in (s.targets if isinstance(s, ast.Assign) else [s.target]):
+                        if isinstance(t, ast.Subscript):
+                            nm = root(t.value)
+                        elif isinstance(s, ast.AugAssign) and isinstance(t, ast.Name) and (t.id in alias or t.id in declared_global):
+                            nm = t.id
+                elif isinstance(s, ast.Delete):
+                    for t in s.targets:
+                        if isinstance(t, ast.Subscript):
+                            nm = root(t.value)
+                if nm is None:
+                    continue
+                c = alias.get(nm) or (nm if nm in consts and nm not in shadow else None)
+                if c:
+                    writes[c].append((fn, s))
+        for c, ln in sorted(consts.items()):
+            n += 1
+            w = writes[c]
+            if (m.name, c) in MODULE_STATE_EXEMPT:
+                ctx.ob(rid, f'{m.name}.{c}', True, 'tabled: ' + MODULE_STATE_EXEMPT[(m.name, c)], m.rel, ln)
+                continue
+            ok = not w
+            ctx.ob(rid, f'{m.name}.{c}', ok, '' if ok else f'{w[0][0].name} writes into the module-level container {c} (`{ast.unparse(w[0][1])[:70]}`): what one call stores is still there for '
+                   'the next call, so the second result depends on the first', m.rel, (w[0][1].lineno if w else ln))
+    if n == 0:
+        raise AnalysisError(f'{rid}: no module-level container in scope')
+
+
+# ---------------------------------------------------------------------------------------------------------------------
+# `x or c` replaces every falsy x by c - also a legitimate 0 / 0.0.  With a non-zero numeric c that changes the meaning of
+# an explicit zero (a budget of 0 becomes unlimited, an index 0 becomes -1).
+OR_DEFAULT_EXEMPT = {
+    # (module, function, default text): reason
+}
+
+
+def or_default_rule(ctx, rid: str, prefixes, floor: int = 3):
+    repo = ctx.repo
+    ctx.rule(rid, 'explicit zero is not a missing value: in every `x or c` of the scoped packages the default c is a zero of its type (0, 0.0, "", (), [], {}, False, None, a fresh '
+             'container/constructor call) or a non-numeric object; a non-zero number / infinity as default turns a passed 0 into c - the accepted idiom is `c if x is None else x`', floor=floor, style='WR')
+    n = 0
+    for m in sorted(repo.modules.values(), key=lambda x: x.rel):
+        if not m.rel.startswith(tuple(prefixes)) or m.rel.endswith('_test.py') or '/testing/' in m.rel or '_pb2' in m.rel:
+            continue
+        for fn in [f for f in ast.walk(m.tree) if isinstance(f, (ast.FunctionDef, ast.AsyncFunctionDef))]:
+            k = 0
+            for b in ast.walk(fn):
+                if not (isinstance(b, ast.BoolOp) and isinstance(b.op, ast.Or)):
+                    continue
+                last = b.values[-1]
+                # only value-selecting uses: `x or c` whose result is stored, passed or returned - not boolean tests
+                if isinstance(last, (ast.Compare, ast.BoolOp)) or (isinstance(last, ast.UnaryOp) and isinstance(last.op, ast.Not)):
+                    continue
+                txt = ast.unparse(last)
+                numeric = None
+                if isinstance(last, ast.Constant) and isinstance(last.value, (int, float, complex)) and not isinstance(last.value, bool):
+                    numeric = last.value != 0
+                elif isinstance(last, ast.UnaryOp) and isinstance(last.op, (ast.USub, ast.UAdd)) and isinstance(last.operand, ast.Constant) and isinstance(last.operand.value, (int, float)):
+                    numeric = last.operand.value != 0
+                elif txt.replace(' ', '') in ('np.inf', 'numpy.inf', 'math.inf', 'float("inf")', "float('inf')", '-np.inf', '-math.inf', 'sys.maxsize'):
+                    numeric = True
+                if numeric is None:
+                    continue
+                k += 1
+                n += 1
+                ex = OR_DEFAULT_EXEMPT.get((m.name, fn.name, txt))
+                ok = (not numeric) or ex is not None
+                ctx.ob(rid, f'{m.name}.{fn.name}:or-default#{k}:{txt}', ok, ('tabled: ' + ex) if ex else '' if ok else
+                       f'`{ast.unparse(b)[:80]}`: a caller passing 0 gets {txt} instead (a used-up budget of 0 samples becomes unlimited); test `is None` instead', m.rel, b.lineno)
+    return n
+
+
+# ---------------------------------------------------------------------------------------------------------------------
+# A parameter typed Iterable / Iterator / OP_TREE may be a generator.  Once a function has materialised it
+# (`flat = tuple(flatten(contents))`), the parameter itself may be exhausted: consuming it again yields nothing.
+def reconsume_rule(ctx, rid: str, prefixes, floor: int = 1):
+    from ..flow import PathWalker
+    repo = ctx.repo
+    ctx.rule(rid, 'single pass over one-shot arguments: after a parameter annotated Iterable / Iterator / OP_TREE has been materialised into a local (x = tuple/list/sorted/set(...param...)), '
+             'no later statement on any path iterates the parameter or passes it on again - a generator argument is empty by then and its operations would be silently lost; the local copy '
+             'is what must be used', floor=floor, style='TNT')
+    ONE = ('Iterable', 'Iterator', 'OP_TREE', 'Generator')
+    MAT = {'tuple', 'list', 'sorted', 'set', 'frozenset'}
+    BENIGN = {'isinstance', 'len', 'type', 'id', 'repr', 'str', 'bool', 'callable', 'hasattr', 'getattr'}
+
+    def one(a):
+        if a.annotation is None:
+            return False
+        t = ast.unparse(a.annotation)
+        return any(p.strip().strip('\'"').split('[')[0].split('.')[-1] in ONE for p in t.split('|'))
+    n = 0
+    for m in sorted(repo.modules.values(), key=lambda x: x.rel):
+        if not m.rel.startswith(tuple(prefixes)) or m.rel.endswith('_test.py') or '/testing/' in m.rel or '_pb2' in m.rel:
+            continue
+        par = None
+        for fn in [f for f in ast.walk(m.tree) if isinstance(f, (ast.FunctionDef, ast.AsyncFunctionDef))]:
+            params = {a.arg for a in fn.args.args + fn.args.kwonlyargs + ([fn.args.vararg] if fn.args.vararg else []) if one(a)}
+            if not params:
+                continue
+            nested = {id(x) for f in ast.walk(fn) if f is not fn and isinstance(f, (ast.FunctionDef, ast.AsyncFunctionDef, ast.Lambda)) for x in ast.walk(f)}
+            rebound = {t.id for s in ast.walk(fn) if isinstance(s, ast.Assign) for t in s.targets if isinstance(t, ast.Name)} & params
+            for st in ast.walk(fn):
+                if id(st) in nested or not (isinstance(st, ast.Assign) and len(st.targets) == 1 and isinstance(st.targets[0], ast.Name)
+                                            and isinstance(st.value, ast.Call) and call_name(st.value) in MAT):
+                    continue
+                local = st.targets[0].id
+                for p in sorted({x.id for x in ast.walk(st.value) if isinstance(x, ast.Name) and x.id in params} - rebound - {local}):
+                    if par is None:
+                        par = m.parents()
+                    n += 1
+
+                    def consumes(node, p=p):
+                        for x in ast.walk(node):
+                            if id(x) in nested:
+                                continue
+                            if isinstance(x, ast.Name) and x.id == p and isinstance(x.ctx, ast.Load):
+                                pp = par.get(x)
+                                if isinstance(pp, (ast.For, ast.comprehension)) and pp.iter is x:
+                                    return x
+                                if isinstance(pp, ast.Call) and x in pp.args and (call_name(pp) or '').split('.')[-1] not in BENIGN:
+                                    return x
+                                if isinstance(pp, (ast.Starred, ast.keyword, ast.YieldFrom)):
+                                    return x
+                        return None
+                    hits = []
+
+                    def transfer(node, s, st=st):
+                        if node is st:
+                            return ['after']
+                        if s == 'after' and not isinstance(node, (ast.If, ast.For, ast.While, ast.With, ast.Try, ast.FunctionDef, ast.AsyncFunctionDef, ast.ClassDef, ast.Match)):
+                            h = consumes(node)
+                            if h is not None:
+                                hits.append(h)
+                        return [s]
+                    try:
+                        PathWalker(transfer).run(fn, 'before')
+                    except RuntimeError:
+                        ctx.unres(rid, f'{m.name}.{fn.name}:{p}', 'path explosion', m.rel, fn.lineno)
+                        continue
+                    ok = not hits
+                    ctx.ob(rid, f'{m.name}.{fn.name}:{p}', ok, '' if ok else f'`{p}` was already consumed into `{local}` (line {st.lineno}) and is consumed again at line {hits[0].lineno}: '
+                           f'a generator passed as `{p}` is empty the second time, so what it held is silently dropped', m.rel, (hits[0].lineno if hits else st.lineno))
+    if n == 0:
+        raise AnalysisError(f'{rid}: no materialised one-shot parameter in scope')
